@@ -19,6 +19,10 @@ pub struct Case {
     /// 0 = read until the server falls silent; n > 0 = shutdown after n reads (at any point of the activation)
     #[serde(default)]
     pub stop_after: u8,
+    /// another connection made on the same thread just before (same client configuration, another server: other selected
+    /// protocol, user id, version); whatever it leaves behind must not leak into this one
+    #[serde(default)]
+    pub warmup: bool,
 }
 
 pub fn norm(s: &str) -> String {
@@ -56,6 +60,22 @@ pub struct ConnRun {
 /// which violations belong to which property: C03 = order / identifier / dependency / results, C04 = well-formedness
 pub fn run_connection(c: &Case, for_c04: bool) -> Outcome {
     let mut out = Outcome::new();
+    if c.warmup {
+        out.label("after-another-connection");
+        let mut p = ServerProfile::simple(if c.profile.user_id == 1007 { 1008 } else { 1007 }, 0x0BAD_F00D);
+        p.selected_protocol = if c.profile.selected_protocol == 2 { 1 } else { 2 };
+        let (duplex, _h) = mem::new_duplex(p.clone(), None);
+        let (r, _) = mem::mem_connect(&c.cfg, duplex, p.selected_protocol);
+        if let Res::Ok(mut conn) = r {
+            for _ in 0..6 {
+                let (r, _) = call(|| conn.client.read(|_| ()));
+                if !r.is_ok() {
+                    break;
+                }
+            }
+            let _ = call(|| conn.client.shutdown());
+        }
+    }
     let (duplex, h) = mem::new_duplex(c.profile.clone(), None);
     h.borrow_mut().chunk = c.chunk as usize;
     let (r, step) = mem::mem_connect(&c.cfg, duplex, c.profile.selected_protocol);
@@ -347,6 +367,7 @@ pub fn decode(s: &mut Src) -> Case {
     if s.chance(160) {
         cfg.name = cfg.name.chars().filter(|c| c.is_ascii()).take(15).collect();
     }
+    let warmup = s.chance(56);
     let mut profile = gen::gen_profile(s, cfg.nla);
     let chunk = s.pick(&[0u16, 0, 1, 7, 1500]);
     // shutdown at any point: early, or after a deactivate-all that no demand-active follows
@@ -355,7 +376,7 @@ pub fn decode(s: &mut Src) -> Case {
         let last = profile.activations.last().map(|a| a.share_id).unwrap_or(0);
         profile.post_activation = vec![refimpl::wire::send_data_indication(profile.server_user, profile.io_channel, &refimpl::wire::deactivate_all(last, profile.server_user)).bytes];
     }
-    Case { cfg, profile, chunk, stop_after }
+    Case { cfg, profile, chunk, stop_after, warmup }
 }
 
 pub fn check(rep: &Report) {
@@ -363,7 +384,7 @@ pub fn check(rep: &Report) {
     rep.assume("the mem lane builds the layers the way Connector::connect does after the X.224 negotiation (hooks from_transport / from_layers); the real entry point is exercised through TLS in C17/C01");
     let mut golden = Vec::new();
     for uid in [1001u16, 1002, 1004, 0x7FFF, 0x8000, 64534, 65535] {
-        golden.push(Case { cfg: ClientCfg::simple(), profile: ServerProfile::simple(uid, 0x000103EA), chunk: 0, stop_after: 0 });
+        golden.push(Case { cfg: ClientCfg::simple(), profile: ServerProfile::simple(uid, 0x000103EA), chunk: 0, stop_after: 0, warmup: uid % 2 == 0 });
     }
     rep.list("golden", golden, run);
     rep.random("connections", rep.tier.n(60_000, 3_000_000), 220, decode, run);
@@ -372,6 +393,7 @@ pub fn check(rep: &Report) {
     rep.require("tls", "hybrid-selected", 20);
     rep.require("connections", "reactivation", 1000);
     rep.require("connections", "early-shutdown", 1000);
+    rep.require("connections", "after-another-connection", 1000);
     rep.require("connections", "trailing-deactivate", 1000);
     rep.require("connections", "hybrid-selected", 1000);
     rep.require("connections", "user-id>=0x8000", 500);
